@@ -25,6 +25,7 @@ let src_of = function
   | "i32" -> Some (Model.SI Model.i32) | "u32" -> Some (Model.SI Model.u32)
   | "i64" -> Some (Model.SI Model.i64) | "u64" -> Some (Model.SI Model.u64)
   | "f" -> Some (Model.SF (z 24)) | "d" -> Some (Model.SF (z 53)) | "I" -> Some Model.SInteger
+  | "ll" -> Some (Model.SLL true) | "ull" -> Some (Model.SLL false)
   | "ru6" -> Some (Model.SRU (z 6)) | "ru7" -> Some (Model.SRU (z 7))
   | _ -> None
 let show_init r s m x =
